@@ -3,7 +3,7 @@ From AV Require Import Lib.Base H1.Chunked H1.PayloadDec H1.Framing H1.Codec H1.
 
 Section P.
   Variable head : bytes -> head_res.
-  Variables maxb maxp : N.
+  Variables maxb maxp cap : N.
 
   Lemma run_r_fst : forall f c buf acc, fst (run_r head maxb f c buf acc) = run head maxb f c buf acc.
   Proof.
@@ -13,61 +13,61 @@ Section P.
 
   (* every executable schedule is a schedule of the model *)
   Theorem xexec_is_gexec : forall xops g, exists ops,
-    xexec head maxb maxp xops g = gexec head maxb maxp ops g.
+    xexec head maxb maxp cap xops g = gexec head maxb maxp ops g.
   Proof.
     induction xops as [|o xops IH]; intro g; [exists []; reflexivity|].
-    change (xexec head maxb maxp (o :: xops) g) with (xexec head maxb maxp xops (xstep head maxb maxp g o)).
-    destruct (IH (xstep head maxb maxp g o)) as [ops Hops]. rewrite Hops.
+    change (xexec head maxb maxp cap (o :: xops) g) with (xexec head maxb maxp cap xops (xstep head maxb maxp cap g o)).
+    destruct (IH (xstep head maxb maxp cap g o)) as [ops Hops]. rewrite Hops.
     destruct o as [bs| |pl|n]; cbn [xstep].
-    - destruct (maxb <=? lenN (g_read_buf g)); [exists ops; reflexivity|exists (ORead bs :: ops); reflexivity].
+    - destruct (cap <=? lenN (g_read_buf g)); [exists ops; reflexivity|exists (ORead bs :: ops); reflexivity].
     - exists (OPeerClosed :: ops). reflexivity.
     - exists (OPoll pl (leftover_of head maxb g) :: ops). reflexivity.
     - exists (OQueue n :: ops). reflexivity.
   Qed.
 
   Lemma xstep_frozen g o : g_read_disconnect g = true ->
-    g_read_disconnect (xstep head maxb maxp g o) = true /\ g_msgs (xstep head maxb maxp g o) = g_msgs g /\
-    g_rejected (xstep head maxb maxp g o) = g_rejected g.
+    g_read_disconnect (xstep head maxb maxp cap g o) = true /\ g_msgs (xstep head maxb maxp cap g o) = g_msgs g /\
+    g_rejected (xstep head maxb maxp cap g o) = g_rejected g.
   Proof.
     intro H. destruct o as [bs| |pl|n]; cbn [xstep];
-      try (destruct (maxb <=? lenN (g_read_buf g)); [auto|]);
+      try (destruct (cap <=? lenN (g_read_buf g)); [auto|]);
       match goal with |- context [gstep _ _ _ g ?op] =>
         destruct (gstep_frozen head maxb maxp g op H) as (A & B & C & _); auto end.
   Qed.
 
-  Lemma xstep_inv g o : ginv g -> ginv (xstep head maxb maxp g o).
+  Lemma xstep_inv g o : ginv g -> ginv (xstep head maxb maxp cap g o).
   Proof.
     intro H. destruct o as [bs| |pl|n]; cbn [xstep];
-      try (destruct (maxb <=? lenN (g_read_buf g)); [exact H|]); apply gstep_inv; exact H.
+      try (destruct (cap <=? lenN (g_read_buf g)); [exact H|]); apply gstep_inv; exact H.
   Qed.
 
-  Lemma xexec_inv ops : forall g, ginv g -> ginv (xexec head maxb maxp ops g).
+  Lemma xexec_inv ops : forall g, ginv g -> ginv (xexec head maxb maxp cap ops g).
   Proof.
     induction ops as [|o ops IH]; intros g H; [exact H|].
-    change (xexec head maxb maxp (o :: ops) g) with (xexec head maxb maxp ops (xstep head maxb maxp g o)).
+    change (xexec head maxb maxp cap (o :: ops) g) with (xexec head maxb maxp cap ops (xstep head maxb maxp cap g o)).
     apply IH. apply xstep_inv. exact H.
   Qed.
 
   Lemma xexec_frozen ops : forall g, g_read_disconnect g = true ->
-    g_msgs (xexec head maxb maxp ops g) = g_msgs g /\ g_rejected (xexec head maxb maxp ops g) = g_rejected g.
+    g_msgs (xexec head maxb maxp cap ops g) = g_msgs g /\ g_rejected (xexec head maxb maxp cap ops g) = g_rejected g.
   Proof.
     induction ops as [|o ops IH]; intros g H; [auto|].
-    change (xexec head maxb maxp (o :: ops) g) with (xexec head maxb maxp ops (xstep head maxb maxp g o)).
+    change (xexec head maxb maxp cap (o :: ops) g) with (xexec head maxb maxp cap ops (xstep head maxb maxp cap g o)).
     destruct (xstep_frozen g o H) as (A & B & C). destruct (IH _ A) as [I1 I2]. rewrite I1, I2. auto.
   Qed.
 
   (* the clause of C01 on the executable gate (the one the correspondence driver runs) *)
   Theorem xexec_nothing_after_reject : forall ops1 ops2 e,
-    g_rejected (xexec head maxb maxp ops1 gate0) = Some e ->
-    g_msgs (xexec head maxb maxp (ops1 ++ ops2) gate0) = g_msgs (xexec head maxb maxp ops1 gate0) /\
-    g_rejected (xexec head maxb maxp (ops1 ++ ops2) gate0) = Some e.
+    g_rejected (xexec head maxb maxp cap ops1 gate0) = Some e ->
+    g_msgs (xexec head maxb maxp cap (ops1 ++ ops2) gate0) = g_msgs (xexec head maxb maxp cap ops1 gate0) /\
+    g_rejected (xexec head maxb maxp cap (ops1 ++ ops2) gate0) = Some e.
   Proof.
     intros ops1 ops2 e H.
-    assert (E : xexec head maxb maxp (ops1 ++ ops2) gate0 =
-                xexec head maxb maxp ops2 (xexec head maxb maxp ops1 gate0))
+    assert (E : xexec head maxb maxp cap (ops1 ++ ops2) gate0 =
+                xexec head maxb maxp cap ops2 (xexec head maxb maxp cap ops1 gate0))
       by (unfold xexec; apply fold_left_app).
     rewrite E.
-    assert (Hd : g_read_disconnect (xexec head maxb maxp ops1 gate0) = true).
+    assert (Hd : g_read_disconnect (xexec head maxb maxp cap ops1 gate0) = true).
     { apply (xexec_inv ops1 gate0); [intro Hx; contradiction|]. rewrite H. discriminate. }
     destruct (xexec_frozen ops2 _ Hd) as [I1 I2]. rewrite I1, I2. auto.
   Qed.
